@@ -500,7 +500,7 @@ def r_bound(c):
             "CodeGenPreprocessor", "only-map_data_wrapper-binds", m.loc(ci.module, ci.node),
             f"bound_arguments is written in {[w[0] for w in writes]}")
     for mn, n in writes:
-        c.check(ast.unparse(n.value) == "expr.data", "R15-BOUND",
+        c.check(ast.unparse(n.value) == ci.methods[mn].args.args[1].arg + ".data", "R15-BOUND",
                 f"CodeGenPreprocessor.{mn}", "binds-the-data-object-itself",
                 m.loc(ci.module, n),
                 f"the pre-bound argument is `{ast.unparse(n.value)}` rather than the "
@@ -534,7 +534,8 @@ def r_bound(c):
     for meth, sink in (("map_placeholder", "lp.GlobalArg"), ("map_size_param", "lp.ValueArg")):
         fd = m.func(f"{CGM}.{meth}")
         ok = any(isinstance(x, ast.Call) and ast.unparse(x.func) == sink
-                 and x.args and ast.unparse(x.args[0]) == "expr.name" for x in ast.walk(fd))
+                 and x.args and ast.unparse(x.args[0]) == fd.args.args[1].arg + ".name"
+                 for x in ast.walk(fd))
         c.check(ok, "R15-BOUND", f"CodeGenMapper.{meth}", "argument-named-expr.name",
                 m.loc(LC, fd), f"the kernel argument is not created as {sink}(expr.name, ...)")
 
